@@ -148,6 +148,116 @@ def one_instance(acc, m, fr, max_paths):
                     "outcomes": len(ref), "most_likely": [(k, round(v, 6)) for k, v in top]})
 
 
+# ------------------------------------------------------------------------------------------------ Tier B
+def tier_b(acc, m, seed, fr):
+    """Every decision of a random run on a larger instance: the probability vector handed to rng.choice inside
+    choose_compatible_weight must be the reference law on exactly the descriptors it was given, the pool must be the one
+    the statement names for that kind of decision (repeat units when growing, end groups when capping / starting), and
+    a listed descriptor must be followed by a choice with its normalised list."""
+    import sys
+    import gbigsmiles.core as core
+    import gbigsmiles.stochastic as gs
+    import gbigsmiles.token as gt
+    from ..parsecmp import bd_facts
+
+    text = m.text(False)
+    ok, why = reflaw.well_posed(m)
+    if not ok:
+        return
+    status, parsed = gen.parse_mol(m)
+    if status != "ok" or not parsed.tok_index:
+        return
+    # identity of the token-owned descriptors
+    role = {}
+    toks = m.tokens
+    owner = []
+    for ei, e in enumerate(m.elements):
+        if isinstance(e, Stoch):
+            owner += [(ei, "repeat")] * len(e.repeat) + [(ei, "end")] * len(e.end)
+        else:
+            owner.append((ei, "tok"))
+    for t_i, r in enumerate(parsed.obj.residues):
+        for bd in r.bond_descriptors:
+            role[id(bd)] = owner[t_i]
+    rng = probe.RecordingRNG(seed)
+    calls = []
+    orig = core.choose_compatible_weight
+
+    def tap(bond_descriptors, bond, rng_):
+        n0 = len(rng.log)
+        try:
+            caller = sys._getframe(1).f_code.co_name
+        except Exception:  # noqa: BLE001
+            caller = "?"
+        facts = [bd_facts(b) for b in bond_descriptors]
+        roles = [role.get(id(b)) for b in bond_descriptors]
+        bf = None if bond is None else bd_facts(bond)
+        idx = orig(bond_descriptors, bond, rng_)
+        entry = rng.log[n0] if len(rng.log) == n0 + 1 else None
+        calls.append({"caller": caller, "facts": facts, "roles": roles, "bond": bf, "idx": int(idx), "entry": entry,
+                      "chosen_list": facts[int(idx)]["transitions"] if bond is None else None, "log_pos": n0})
+        return idx
+
+    saved = [(gs, gs.choose_compatible_weight), (gt, gt.choose_compatible_weight)]
+    gs.choose_compatible_weight = tap
+    gt.choose_compatible_weight = tap
+    try:
+        targets = targets_for(m, fr)
+        gres = gen.generate(parsed, rng, targets)
+    finally:
+        for mod, f in saved:
+            mod.choose_compatible_weight = f
+    if gres.status != "ok" or not calls:
+        acc.count("tier_b_generation_dropped")
+        return
+    case = {"text": text, "ast": m.to_json(), "seed": seed, "fr": [list(x) for x in fr], "tier": "B"}
+    acc.case((text, seed) if len(calls) >= 6 else None, labels=["tierB", f"decisions:{min(len(calls) // 10 * 10, 100)}"])
+    acc.count("tier_b_decisions", len(calls))
+
+    def compat(a, b):
+        return (a["symbol"] and b["symbol"] and a["id"] == b["id"] and a["order"] == b["order"]
+                and (a["symbol"], b["symbol"]) in (("$", "$"), ("<", ">"), (">", "<")))
+
+    for k, c in enumerate(calls):
+        if c["entry"] is None:
+            acc.count("tier_b_not_observable")
+            continue
+        opts, p, res = c["entry"]
+        cand = [i for i, f in enumerate(c["facts"]) if c["bond"] is None or compat(c["bond"], f)]
+        if [int(x) for x in opts] != cand:
+            acc.violation("decision_candidates", f"{text!r}: decision {k} ({c['caller']}): candidates {list(opts)} but the compatible descriptors are {cand}", case,
+                          {"caller": c["caller"]}, size=len(text))
+            return
+        ref = reflaw.normalise([c["facts"][i]["weight"] for i in cand])
+        if p is None or len(p) != len(ref) or any(abs(a - b) > 1e-12 for a, b in zip(p, ref)):
+            acc.violation("decision_law", f"{text!r}: decision {k} ({c['caller']}): weights {[c['facts'][i]['weight'] for i in cand]} were turned into "
+                          f"p={p}, the notation gives {ref}", case, {"caller": c["caller"]}, size=len(text))
+            return
+        if ref[cand.index(c["idx"])] <= 0:
+            acc.violation("zero_probability_taken", f"{text!r}: decision {k}: option with probability 0 taken", case, {}, size=len(text))
+            return
+        # pool of the decision
+        if c["bond"] is not None and c["caller"] in ("add_repeat_unit", "finalize_mol") and all(r is not None for r in c["roles"]):
+            kinds = {r[1] for r in c["roles"]}
+            want = {"repeat"} if c["caller"] == "add_repeat_unit" else {"end"}
+            if c["caller"] == "finalize_mol" and any(r is None for r in c["roles"]):
+                pass
+            elif kinds and kinds != want:
+                acc.violation("decision_pool", f"{text!r}: decision {k} in {c['caller']} picks among {sorted(kinds)} descriptors, the statement says {sorted(want)}", case,
+                              {"caller": c["caller"]}, size=len(text))
+                return
+        # a listed open descriptor must be followed by a choice with exactly its normalised list
+        if c["bond"] is None and c["caller"] == "add_repeat_unit" and c["chosen_list"] is not None:
+            nxt = rng.log[c["log_pos"] + 1] if len(rng.log) > c["log_pos"] + 1 else None
+            lst = c["chosen_list"]
+            tot = sum(lst)
+            want = [x / tot for x in lst]
+            if nxt is None or nxt[1] is None or len(nxt[1]) != len(want) or any(abs(a - b) > 1e-12 for a, b in zip(nxt[1], want)):
+                acc.violation("decision_list", f"{text!r}: decision {k}: open descriptor carries the list {lst}, the following choice used p={None if nxt is None else nxt[1]}", case,
+                              {}, size=len(text))
+                return
+
+
 def run_shard(cfg):
     import time
     acc = Acc()
@@ -162,11 +272,28 @@ def run_shard(cfg):
             return
         one_instance(acc, m, fr, sz["max_paths"])
     drive(inst_case(), f, n, cfg["seed"])
+
+    # Tier B: every decision of random runs on larger instances
+    @st.composite
+    def big_case(draw):
+        m = draw(molecules(max_blocks=2, max_atoms=4, small=False))
+        fr = [(draw(st.integers(2, 9)), draw(st.sampled_from([0.5, 0.25])), draw(st.integers(0, 3)), 1) for _ in range(3)]
+        return m, draw(st.integers(0, 2**31 - 1)), fr
+
+    def g(x):
+        if time.time() > t_end + 25:
+            acc.count("tier_b_skipped_after_soft_deadline")
+            return
+        tier_b(acc, x[0], x[1], x[2])
+    drive(big_case(), g, max(4, n // 2), cfg["seed"] + 11)
     return acc
 
 
 def replay(case, rec):
     acc = Acc()
     m = Mol.from_json(case["ast"])
+    if case.get("tier") == "B":
+        tier_b(acc, m, case["seed"], [tuple(x) for x in case["fr"]])
+        return acc
     one_instance(acc, m, [tuple(x) for x in case["fr"]], 20000)
     return acc
